@@ -1605,9 +1605,11 @@ fn read_subframes<R: BitRead>(
                     read_subframe(&mut reader, side_bps, side)?;
 
                     mid.iter_mut().zip(side.iter_mut()).for_each(|(mid, side)| {
-                        let sum = *mid * 2 + side.abs() % 2;
-                        *mid = (sum + *side) >> 1;
-                        *side = (sum - *side) >> 1;
+                        // modulo 2^32: only a malformed frame can overflow here
+                        // (side & 1 is the parity of |side|, also for i32::MIN)
+                        let sum = mid.wrapping_mul(2).wrapping_add(*side & 1);
+                        *mid = sum.wrapping_add(*side) >> 1;
+                        *side = sum.wrapping_sub(*side) >> 1;
                     });
                 }
                 None => {
@@ -1625,9 +1627,9 @@ fn read_subframes<R: BitRead>(
 
                     mid.iter_mut().zip(side.iter_mut()).zip(side_i64).for_each(
                         |((mid, side), side_i64)| {
-                            let sum = *mid as i64 * 2 + (side_i64.abs() % 2);
-                            *mid = ((sum + side_i64) >> 1) as i32;
-                            *side = ((sum - side_i64) >> 1) as i32;
+                            let sum = (*mid as i64 * 2).wrapping_add(side_i64 & 1);
+                            *mid = (sum.wrapping_add(side_i64) >> 1) as i32;
+                            *side = (sum.wrapping_sub(side_i64) >> 1) as i32;
                         },
                     );
                 }
